@@ -15,11 +15,11 @@ from .report import site
 from .front import AnalysisBroken
 
 UNITS = ['src/Array.c', 'src/List.c', 'src/Tuple.c', 'src/Table.c', 'src/Tree.c', 'src/String.c',
-         'src/Type.c', 'src/Alloc.c', 'src/Exception.c']
+         'src/Type.c', 'src/Alloc.c', 'src/Exception.c', 'src/Iter.c']
 CONTRACT = {'IndexOutOfBoundsError', 'KeyError', 'ValueError', 'TypeError', 'FormatError',
             'ResourceError', 'ClassError'}
 VALIDATORS = {'cast', 'c_int', 'c_float', 'c_str'}
-TYPES = ['Array', 'List', 'Tuple', 'Table', 'Tree', 'String']
+TYPES = ['Array', 'List', 'Tuple', 'Table', 'Tree', 'String', 'Range', 'Slice']
 SLOTS = [('Get', 'get'), ('Get', 'set'), ('Get', 'mem'), ('Get', 'rem'),
          ('Push', 'push'), ('Push', 'pop'), ('Push', 'push_at'), ('Push', 'pop_at'),
          ('Resize', 'resize'), ('Concat', 'concat'), ('Concat', 'append')]
@@ -521,6 +521,113 @@ def check_typed_kv(P, ctx):
     ctx.floor(rule, 2)
 
 
+def check_table_resize_refusal(P, ctx):
+    """resize(table, n) with 0 < n < len(table) cannot be honoured (the entries do not fit the request): it is refused with
+    FormatError before anything is rehashed, for every such n — evaluated for counts 1..6 and requests 1..8 with Table_Ideal_Size
+    taken as some size >= the request (which is all a caller may assume)."""
+    from . import cint
+    rule = 'C12.resize-refusal'
+    fn = P.fn(P.slot('Table', 'Resize', 'resize'))
+    ctx.fn(fn)
+    bad = None
+    n_eval = 0
+    for nitems in range(1, 7):
+        for n in range(1, 9):
+            for slack in (0, 3):
+                state = {'rehashed': False}
+
+                def call(nm, e, it, slack=slack, state=state):
+                    if nm == 'Table_Ideal_Size':
+                        return it.ev(e[2][0]) * 2 + slack + 1
+                    if nm in ('Table_Rehash', 'Table_Clear'):
+                        state['rehashed'] = True
+                        return 0
+                    raise cint.NoEval('call %s' % nm)
+                it = cint.CInt(P, fn, atoms={('arrow', ('param', 0), 'nitems'): nitems}, call=call)
+                r = it.run([6001, n])
+                n_eval += 1
+                refused = r[0] == 'term' and r[1][0] == 'throw'
+                if r[0] == 'stuck':
+                    bad = 'table of %d entries, resize to %d: %s' % (nitems, n, r[1])
+                    break
+                if n < nitems and (not refused or state['rehashed']):
+                    bad = 'table of %d entries, resize to %d: %s' % (nitems, n, 'the table is rehashed before the refusal' if refused else 'not refused')
+                    break
+                if n >= nitems and refused:
+                    bad = 'table of %d entries, resize to %d is refused although the entries fit' % (nitems, n)
+                    break
+            if bad:
+                break
+        if bad:
+            break
+    ctx.stats['paths'] += n_eval
+    ctx.check(bad is None, rule, 'Table_Resize', site(fn), 'a resize below the number of entries raises FormatError before any rehash; one that fits is honoured (%d evaluations)' % n_eval,
+              [bad] if bad else None)
+    ctx.floor(rule, 1)
+
+
+KNOWN_RECORD_FIELDS = {     # the fields the node-based containers have today; any further pointer field is a cache of some node
+    'Tree': {'root', 'ktype', 'vtype', 'ksize', 'vsize', 'nitems'},
+    'List': {'type', 'head', 'tail', 'tsize', 'nitems'},
+}
+
+
+def check_node_caches(P, ctx):
+    """A pointer to a node kept in the container record (a `last found` cache, say) dangles once that node is freed: every
+    release of a node must, after the last assignment of the variable it frees, either clear each such field or test the field
+    against that very node.  With no such field (today) the obligation is vacuous."""
+    rule = 'C12.no-dangling-node-cache'
+    for T, unit, frees in (('Tree', 'src/Tree.c', ('free',)), ('List', 'src/List.c', ('free', 'List_Free'))):
+        rec = P.records.get(T)
+        extra = [f for f in (rec['fields'] if rec else []) if f[0] not in KNOWN_RECORD_FIELDS[T] and ('*' in str(f[1]) or str(f[1]) in ('var',))]
+        bad = None
+        nfree = 0
+        for fname, fn in sorted(P.units[unit]['functions'].items()):
+            if fn.get('body') is None or not extra:
+                continue
+            g = P.cfg(fn)
+            N = util.Norm(P, fn)
+            for (fr_n, fr_c) in [(n, c) for nm in frees for (n, c) in g.nodes_calling(nm)]:
+                x = ir.top_nocast(fr_c[2][-1])
+                if fname in frees:
+                    continue
+                xs = [y for y in ir.walk(x) if y[0] == 'local']
+                if not xs:
+                    continue
+                xv = xs[0]
+                nfree += 1
+                writers = [n['id'] for n in g.live() if n['expr'] is not None and any(
+                    ev['t'] == 'write' and ir.top_nocast(ev['lhs']) == xv for ev in util.expr_events(n['expr'], n))]
+                for (fld, _ft) in [(f[0], f[1]) for f in extra]:
+                    F = ('arrow', ('param', 0), fld)
+                    guards = []
+                    for n in g.live():
+                        if n['expr'] is None:
+                            continue
+                        if n['kind'] == 'cond':
+                            c = N.canon(n['expr'])
+                            if c[0] == 'bin' and c[1] in ('==', '!=') and F in (c[2], c[3]) and ('local', xv[1]) in (c[2], c[3]):
+                                guards.append(n['id'])
+                        for ev in util.expr_events(n['expr'], n):
+                            if ev['t'] == 'write' and N.canon(ev['lhs']) == F and ev['rhs'] is not None and ir.is_null(ev['rhs']) and n['kind'] != 'cond':
+                                # an unconditional clear counts; a clear under the comparison is reached through the guard node
+                                if not any(g.must_pass(n['id'], [gd]) for gd in guards):
+                                    guards.append(n['id'])
+                    starts = [g.entry] + writers
+                    for w in starts:
+                        nxt = [v for v, _ in g.nodes[w]['succ']]
+                        if any(fr_n['id'] in g.reach_from(v, cut_nodes=guards + [i for i in writers if i != w]) or v == fr_n['id'] for v in nxt):
+                            if w == g.entry and writers and all(g.must_pass(fr_n['id'], writers) for _ in [0]):
+                                continue
+                            bad = bad or ('%s frees `%s` at %s; between the last assignment of `%s` (%s) and the release the cached pointer `%s` is neither cleared nor '
+                                          'compared with it' % (fname, xv[1], g.describe(fr_n), xv[1], g.describe(g.nodes[w]) if w != g.entry else 'function entry', fld))
+        ctx.check(bad is None, rule, T, P.units[unit]['path'] if 'path' in P.units[unit] else unit,
+                  'no node pointer cached in the %s record survives the release of that node (%s)' % (
+                      T, 'cache fields: %s; %d release sites' % ([f[0] for f in extra], nfree) if extra else 'the record holds no node pointer besides its structural links'),
+                  [bad] if bad else None)
+    ctx.floor(rule, 2)
+
+
 def run(ctx, load):
     P = load(UNITS, 'default')
     ctx.stats['units'] = set(UNITS)
@@ -542,6 +649,8 @@ def run(ctx, load):
     check_refusal_covers_mutation(P, ctx, 'src/String.c', 'val', 'C12.refusal-first', 'String')
     check_refusal_covers_mutation(P, ctx, 'src/Tuple.c', 'items', 'C12.refusal-first', 'Tuple')
     ctx.floor('C12.refusal-first', 14)
+    check_table_resize_refusal(P, ctx)
+    check_node_caches(P, ctx)
 
 
 EXPLANATION = (
